@@ -66,10 +66,11 @@ def run_scenario(sc):
         holder = {}
 
         async def main():
-            a = await sim.start_host('A', '10.0.0.1', 'fe80::1', families=('v4',))
-            sim.randoms['mcast_delay'] = list(sc['mcast'])
-            nr = NodeRecorder(sim, a).install()
+            nr = NodeRecorder(sim).install()
             holder['nr'] = nr
+            a = await sim.start_host('A', '10.0.0.1', 'fe80::1', families=('v4',))
+            nr.attach(a)
+            sim.randoms['mcast_delay'] = list(sc['mcast'])
             t0 = sim.now + sc['lead']
             res['arrivals'] = []
             for (dt, recs) in sc['pre']:
